@@ -226,6 +226,10 @@ where
     {
         loop {
             match self.peek()? {
+                None if scratch == b"." => {
+                    // A lone dot at the end of input may still become `.a` or `...`
+                    return error(self, ErrorCode::EofWhileParsingValue);
+                }
                 Some(b' ') | Some(b'\n') | Some(b'\t') | Some(b'\r') | Some(0x0C) | Some(b')')
                 | Some(b']') | Some(b'(') | Some(b'[') | Some(b';') | Some(b'"') | None => {
                     if scratch == b"." {
@@ -362,6 +366,16 @@ impl<'a> SliceRead<'a> {
         SliceRead { slice, index: 0 }
     }
 
+    /// The error for a token consisting of a single dot: at the end of input
+    /// it may still become `.a` or `...`.
+    fn lone_dot_error(&self) -> ErrorCode {
+        if self.index == self.slice.len() {
+            ErrorCode::EofWhileParsingValue
+        } else {
+            ErrorCode::InvalidSymbol
+        }
+    }
+
     fn position_of_index(&self, i: usize) -> Position {
         let mut position = Position { line: 1, column: 0 };
         for ch in &self.slice[..i] {
@@ -401,13 +415,13 @@ impl<'a> SliceRead<'a> {
                         // copying.
                         let borrowed = &self.slice[start..self.index];
                         if borrowed == b"." {
-                            return error(self, ErrorCode::InvalidSymbol);
+                            return error(self, self.lone_dot_error());
                         }
                         return result(self, borrowed).map(Reference::Borrowed);
                     } else {
                         scratch.extend_from_slice(&self.slice[start..self.index]);
                         if scratch == b"." {
-                            return error(self, ErrorCode::InvalidSymbol);
+                            return error(self, self.lone_dot_error());
                         }
                         // "as &[u8]" is required for rustc 1.8.0
                         let copied = scratch as &[u8];
